@@ -25,6 +25,9 @@ package main
 import (
 	"context"
 	"fmt"
+	"os"
+	"os/exec"
+	"path/filepath"
 	"strings"
 	"time"
 
@@ -33,6 +36,7 @@ import (
 	"google.golang.org/grpc/status"
 
 	"verif/lib/asm"
+	"verif/lib/daemon"
 	"verif/lib/gen"
 	"verif/lib/run"
 	"verif/lib/sim"
@@ -47,7 +51,8 @@ func main() {
 		Workers:     12,
 		CaseTimeout: 120 * time.Second,
 		Floors: map[string]int64{"shutdown_scenarios": 100, "acked_in_window_before_final_sync": 150, "refused_after_final_sync_began": 150, "inflight_finalized_after_close": 40, "expected_present_checked": 1500,
-			"commit_scenarios": 100, "commit_live_objects_checked": 1000, "power_loss_restarts": 100},
+			"commit_scenarios": 100, "commit_live_objects_checked": 1000, "power_loss_restarts": 100,
+			"daemon_graceful_restarts": 10, "daemon_restart_objects_checked": 60, "trace_state_versions": 10, "trace_declared_valid_writes_checked": 20, "trace_blocks_fsyncs": 10},
 		Assumptions: []string{"graceful shutdown loses nothing that was written (intact medium); the power-loss-after-shutdown variant drops every data write not covered by a completed sync and keeps index writes", "a process crash loses nothing that was written"},
 		Race:        true,
 		Body:        body,
@@ -89,6 +94,126 @@ func body(w *run.Worker) {
 	ctx := context.Background()
 	w.Cases("shutdown", w.N(240, 6000), func(c *run.Case) { scenario(ctx, w, c, true) })
 	w.Cases("commit", w.N(240, 6000), func(c *run.Case) { scenario(ctx, w, c, false) })
+	w.Cases("daemon", w.N(12, 240), func(c *run.Case) { daemonCase(w, c) })
+}
+
+// daemonCase exercises the REAL configuration path (new_blob_access.go, real
+// files, memory-mapped block devices, LocalDirectory, system clock) through
+// the cmd/storaged child process: graceful restarts must keep every object
+// the daemon served right before it was asked to quit (old_blocks = 0, so
+// reads have no side effects and the oracle is exact); after a SIGKILL
+// nothing may be served wrong; under strace the syscall log must satisfy the
+// ordering specification of lib/daemon.CheckOrdering.
+func daemonCase(w *run.Worker, c *run.Case) {
+	r := c.Rng
+	g := daemon.Geometry{Old: 0, Cur: r.Range(1, 3), New: r.Range(1, 3), Spare: r.Range(1, 2), BlockSectors: r.Range(2, 4), Records: r.Range(400, 900), EpochMillis: r.Pick(5, 20)}
+	dir, err := os.MkdirTemp(filepath.Join(os.Getenv("VERIF_DIR"), "work"), "daemon-")
+	if err != nil {
+		dir, err = os.MkdirTemp("", "daemon-")
+		if err != nil {
+			w.Inconclusive("cannot create a scratch directory for the daemon engine")
+			return
+		}
+	}
+	defer os.RemoveAll(dir)
+	cfgPath := daemon.Config(dir, g)
+	trace := c.Index%2 == 0
+	if _, err := exec.LookPath("strace"); err != nil {
+		trace = false
+	}
+	c.Desc("daemon %+v trace=%v", g, trace)
+	if c.Index == 0 {
+		w.Sample(map[string]any{"scenario": "daemon", "geometry": fmt.Sprintf("%+v", g), "strace": trace})
+	}
+	type ob struct {
+		id   uint64
+		size int
+	}
+	var objs []ob
+	served := map[uint64]bool{}
+	next := uint64(c.Index)<<32 | uint64(w.Index)<<48
+	cycles := r.Range(2, 4)
+	for cyc := 0; cyc < cycles; cyc++ {
+		p, err := daemon.Start(dir, cfgPath, trace, cyc)
+		if err != nil {
+			w.Inconclusive("daemon engine: " + err.Error())
+			return
+		}
+		w.Count("daemon_cycles", 1)
+		// What the previous incarnation served must still be served.
+		for _, o := range objs {
+			ack, err := p.Cmd(fmt.Sprintf("GET %d %d", o.id, o.size))
+			if err != nil {
+				w.Inconclusive("daemon engine: " + err.Error())
+				p.Kill()
+				return
+			}
+			switch {
+			case strings.HasSuffix(ack, " WRONG"):
+				c.Violation("daemon.Get:wrong-bytes-after-restart", "cycle %d: %s", cyc, ack)
+			case served[o.id] && !strings.HasSuffix(ack, " OK"):
+				c.Violation("daemon:object-lost-across-graceful-restart", "cycle %d: an object that the daemon served right before its graceful shutdown is not served after the restart with the same configuration: %s (geometry %+v)", cyc, ack, g)
+			}
+			if served[o.id] {
+				w.Count("daemon_restart_objects_checked", 1)
+			}
+		}
+		// New uploads, with pauses so that epochs get committed.
+		block := g.BlockSectors * 4096
+		for i := r.Range(4, 14); i > 0; i-- {
+			next++
+			o := ob{next, r.Range(1, block/2)}
+			ack, err := p.Cmd(fmt.Sprintf("PUT %d %d", o.id, o.size))
+			if err != nil {
+				w.Inconclusive("daemon engine: " + err.Error())
+				p.Kill()
+				return
+			}
+			if strings.HasSuffix(ack, " OK") {
+				objs = append(objs, o)
+			}
+			if r.Chance(1, 3) {
+				time.Sleep(time.Duration(g.EpochMillis*2) * time.Millisecond)
+			}
+		}
+		kill := cyc < cycles-1 && r.Chance(1, 3)
+		served = map[uint64]bool{}
+		if !kill {
+			for _, o := range objs {
+				ack, _ := p.Cmd(fmt.Sprintf("GET %d %d", o.id, o.size))
+				if strings.HasSuffix(ack, " OK") {
+					served[o.id] = true
+				} else if strings.HasSuffix(ack, " WRONG") {
+					c.Violation("daemon.Get:wrong-bytes", "%s", ack)
+				}
+			}
+			if err := p.Quit(); err != nil {
+				c.Violation("daemon:graceful-shutdown-failed", "the daemon did not terminate gracefully: %v", err)
+				return
+			}
+			w.Count("daemon_graceful_restarts", 1)
+		} else {
+			p.Kill()
+			w.Count("daemon_kills", 1)
+		}
+		if p.Trace != "" {
+			calls, err := daemon.ParseTrace(p.Trace)
+			if err != nil {
+				w.Inconclusive("cannot parse the strace log: " + err.Error())
+				continue
+			}
+			viol, cnt := daemon.CheckOrdering(calls, dir)
+			for k, v := range cnt {
+				w.Count("trace_"+k, v)
+			}
+			for sig, msg := range viol {
+				c.Violation(sig, "%s", msg)
+			}
+			if cnt["state_versions"] > 0 && cnt["blocks_pwrites"] > 0 {
+				w.Distinct(fmt.Sprintf("daemon|%+v|%d|%d", g, cnt["state_versions"], cnt["blocks_pwrites"]))
+			}
+		}
+	}
 }
 
 func (e *env) newObj(size int) *obj {
